@@ -168,6 +168,9 @@ package keeper
 // *DenomUnit pointers), and every registered denomination has bank metadata - a cross-module fact no contract
 // here establishes. See /verif/DESIGN.md section 10, #13.
 // verif:func (Keeper).RegisterCoin
+// the registered denomination (the index is keyed by the metadata's Base) was not registered before: no denomination
+// belongs to two pairs
+//@ ensures [base-unused] result1 == nil ==> !kvhas(old(aggregate(ctx)), denomKey(coinMetadata.Base))
 //@ nopanic dryrun
 //@ ensures [pair-returned] result1 == nil ==> result != nil
 //@ modifies world(ctx)
@@ -179,6 +182,7 @@ package keeper
 //@ ensures [reject-clean-registry] result1 != nil ==> aggregate(ctx) == old(aggregate(ctx))
 
 // verif:func (Keeper).AddCoin
+//@ ensures [base-unused] result1 == nil ==> !kvhas(old(aggregate(ctx)), denomKey(coinMetadata.Base))
 //@ nopanic dryrun
 //@ ensures [pair-returned] result1 == nil ==> result != nil
 //@ requires [registry-inv] idsConsistent(aggregate(ctx))
